@@ -25,7 +25,12 @@ def run_property(prop, tier, repo, overlay=None, quiet=False, write=True,
     if tier == 'thorough' and write:
         from mstatic import selftest
         extra = selftest.for_property(prop, repo)
-    rc = report.conclude(ctx, t0, quiet=quiet, write=write,
+    out_dir = None
+    if os.path.realpath(repo) != '/repo':
+        # never overwrite the committed evidence with a run on a scratch copy
+        out_dir = os.path.join('/tmp', 'mstatic-evidence',
+                               os.path.basename(os.path.normpath(repo)))
+    rc = report.conclude(ctx, t0, out_dir=out_dir, quiet=quiet, write=write,
                          extra_coverage=extra)
     if extra and extra.get('mutants_survived'):
         print('ANALYSIS-ERROR property=%s checker self-test: %d mutant(s) '
